@@ -536,17 +536,44 @@ func Eq(a, b *Term) *Term {
 	return newTerm("=", SBool, a, b)
 }
 
+// Reference terms known to be pairwise distinct: freshly allocated objects differ from each other, from nil and
+// from every reference that existed in the pre-state (inputs).
+var freshRefTerms = map[*Term]bool{}
+var inputRefTerms = map[*Term]bool{}
+
+func knownDistinct(a, b *Term) bool {
+	if a == b {
+		return false
+	}
+	if a.Lit && b.Lit {
+		return true
+	}
+	fa, fb := freshRefTerms[a], freshRefTerms[b]
+	if fa && fb {
+		return true
+	}
+	if fa && (inputRefTerms[b] || b.Lit) {
+		return true
+	}
+	if fb && (inputRefTerms[a] || a.Lit) {
+		return true
+	}
+	return false
+}
+
 func Select(arr, idx *Term) *Term {
-	// read-over-write simplification on syntactically equal index
-	for a := arr; a.Op == "store" && len(a.Args) == 3; a = a.Args[0] {
+	// read-over-write simplification on syntactically equal / provably distinct indices
+	a := arr
+	for a.Op == "store" && len(a.Args) == 3 {
 		if a.Args[1] == idx {
 			return a.Args[2]
 		}
-		if !(a.Args[1].Lit && idx.Lit) {
+		if !knownDistinct(a.Args[1], idx) {
 			break
 		}
+		a = a.Args[0]
 	}
-	return newTerm("select", arr.S.Elem, arr, idx)
+	return newTerm("select", arr.S.Elem, a, idx)
 }
 
 func Store(arr, idx, v *Term) *Term {
